@@ -312,8 +312,21 @@ def r4(ctx):
     ctx.check('R4', 'resend:POLLOUT-dropped-at-zero', ok, drops[0] if drops else r, 'POLLOUT is dropped only when nothing is outstanding',
               'POLLOUT can be dropped while notifications are still outstanding')
     sends = [ev for ev in r.events('CALL') if _us_call(ev, 'qb_ipc_us_send')]
-    ctx.check('R4', 'resend:sends-outstanding-count', len(sends) == 1 and field_is(sends[0].args[2], 'outstanding_notifiers'), sends[0] if sends else r,
-              'the resend writes as many bytes as are outstanding', 'the resend writes %s bytes' % (estr(sends[0].args[2]) if sends else None))
+    def at_most_outstanding(e):
+        e = unwrap(e)
+        if field_is(e, 'outstanding_notifiers'):
+            return True
+        if e.get('k') == 'cond':
+            # MIN(outstanding, something): one leaf is the counter, chosen when it is the smaller one
+            c = unwrap(e['c'])
+            t, f_ = unwrap(e['t']), unwrap(e['f'])
+            if c.get('k') == 'bin' and c['op'] in ('<', '<=') and estr(c['l']) == estr(t) and estr(c['r']) == estr(f_):
+                return field_is(t, 'outstanding_notifiers') or field_is(f_, 'outstanding_notifiers')
+            if c.get('k') == 'bin' and c['op'] in ('>', '>=') and estr(c['l']) == estr(f_) and estr(c['r']) == estr(t):
+                return field_is(t, 'outstanding_notifiers') or field_is(f_, 'outstanding_notifiers')
+        return False
+    ctx.check('R4', 'resend:sends-outstanding-count', len(sends) == 1 and at_most_outstanding(sends[0].args[2]), sends[0] if sends else r,
+              'the resend writes the outstanding count (or a capped part of it; the rest follows on the next POLLOUT)', 'the resend writes %s bytes, not bounded by the outstanding count' % (estr(sends[0].args[2]) if sends else None))
 
 
 def r5(ctx):
